@@ -18,6 +18,10 @@ import (
 //   parse <lang> <hex text>      lang ::= spl | sql | promql
 // The Oracle answers "ok" (no model of the PEG parsers); findings are PropFails.
 
+// relative time modifiers and the epoch numbers (s, ms, µs, ns) they resolve to
+var relTimeRe = regexp.MustCompile(`(?i)(earliest|latest|starttime|endtime)\s*=\s*"?(now|[-+@])`)
+var epochRe = regexp.MustCompile(`\b1[5-9]\d{8}(\d{3}){0,3}\b`)
+
 func init() {
 	register(&Suite{Name: "parsers", Gen: genParsers, Exec: execParsers,
 		Rule: "query texts from grammar fragments (SPL commands, SQL, PromQL) with byte-level mutations (truncation, duplication, unbalanced quotes/parens, huge numbers, unicode); non-trivial = ≥ 8 bytes"})
@@ -201,6 +205,12 @@ func execParsers(line string) Result {
 		return res
 	}
 	o2, ok2 := run()
+	if ok2 && relTimeRe.MatchString(text) {
+		// a time modifier relative to "now" (earliest=-1h, latest=now, @d snaps) is resolved against the clock while
+		// parsing: the two parses happen at different instants, so the resolved epochs are not part of "the same plan"
+		o1.plan = epochRe.ReplaceAllString(o1.plan, "<epoch>")
+		o2.plan = epochRe.ReplaceAllString(o2.plan, "<epoch>")
+	}
 	if ok2 && o2.panicked == "" && (o1.perr != o2.perr || (o1.plan != o2.plan && o1.plan != "unmarshalable")) {
 		res.Fails = append(res.Fails, PropFail{Sig: "parser/" + f[1] + "/plan-not-deterministic", Msg: "same text gave two different plans: " + trunc(text, 120)})
 	}
